@@ -93,13 +93,13 @@ theorem replayOne_update_eq (r : WalRec) (s : Store) (l : Leaf) (d : Bool)
   obtain ⟨mem1, hf, hsv⟩ := fetch_present
     { s with hdr := { s.hdr with nextLSN := max s.hdr.nextLSN r.lsn } } r.page (.leaf l) d hv hoff
   refine ⟨mem1, fun k => hsv k, ?_⟩
-  unfold replayOne
-  simp only []
-  rw [hf]
   have hop1 : (r.op == c_OpInsert) = false := by rw [hop]; decide
   have hop2 : (r.op == c_OpUpdate) = true := by rw [hop]; decide
+  unfold replayOne
+  simp only [hop1, Bool.false_eq_true, if_false]
+  rw [hf]
   have hlen' : ¬ r.val.length > c_maxValueSize := by omega
-  simp only [nodeLSN, hop1, hop2, hcell, hlen', updLeaf, bumpHdr, Bool.false_eq_true, if_false, if_true,
+  simp only [nodeLSN, hop2, hcell, hlen', updLeaf, bumpHdr, Bool.false_eq_true, if_false, if_true,
     decide_false, Bool.not_true, Bool.or_false]
   split <;> rfl
 
@@ -116,12 +116,12 @@ theorem replayOne_delete_eq (r : WalRec) (s : Store) (l : Leaf) (d : Bool)
   obtain ⟨mem1, hf, hsv⟩ := fetch_present
     { s with hdr := { s.hdr with nextLSN := max s.hdr.nextLSN r.lsn } } r.page (.leaf l) d hv hoff
   refine ⟨mem1, fun k => hsv k, ?_⟩
-  unfold replayOne
-  simp only []
-  rw [hf]
   have hop1 : (r.op == c_OpInsert) = false := by rw [hop]; decide
   have hop2 : (r.op == c_OpUpdate) = false := by rw [hop]; decide
-  simp only [nodeLSN, hop1, hop2, hcell, delLeaf, bumpHdr, Bool.false_eq_true, if_false,
+  unfold replayOne
+  simp only [hop1, Bool.false_eq_true, if_false]
+  rw [hf]
+  simp only [nodeLSN, hop2, hcell, delLeaf, bumpHdr, Bool.false_eq_true, if_false,
     Bool.not_true]
   split <;> rfl
 
